@@ -79,7 +79,7 @@ func paramsValid(m *mParams, depth, batch int) (valid bool, why string) {
 // valid, invalid by one mutation, or of the wrong shape. Witness-level start
 // indices >= 2^32 are folded to their low 32 bits (parameters carry uint32).
 func genParamsFor(t *rapid.T, mode string, depth, batch int) (string, *mParams) {
-	kind := pick(t, "pkind", "valid", "valid", "valid-unreduced-hash", "invalid-batch", "invalid-batch", "invalid-batch", "focus-invalid", "focus-invalid", "wrong-hash", "wrong-shape", "wrong-shape")
+	kind := pick(t, "pkind", "valid", "valid", "valid-short-hash", "valid-unreduced-hash", "invalid-batch", "invalid-batch", "invalid-batch", "focus-invalid", "focus-invalid", "wrong-hash", "wrong-shape", "wrong-shape")
 	return genParamsOfKind(t, mode, depth, batch, kind)
 }
 
@@ -166,10 +166,27 @@ func genFocusInvalid(t *rapid.T, mode string, depth, batch int) (string, *mParam
 	}
 }
 
+func paramsHashShort(m *mParams) bool {
+	if ok, _ := paramsValid(m, len(m.MerkleProofs[0]), len(m.IdComms)); !ok {
+		return false
+	}
+	return ref.Mod(m.InputHash).BitLen() <= 248
+}
+
 func genParamsOfKind(t *rapid.T, mode string, depth, batch int, kind string) (string, *mParams) {
 	switch kind {
 	case "focus-invalid":
 		return genFocusInvalid(t, mode, depth, batch)
+	case "valid-short-hash":
+		// a valid batch whose reduced input hash has at least one leading zero byte (about 1 in 49 batches): public
+		// witnesses built from a byte string must right-align it
+		for try := 0; try < 150; try++ {
+			m := genValidParams(t, mode, depth, batch)
+			if paramsHashShort(m) {
+				return kind, m
+			}
+		}
+		return "valid", genValidParams(t, mode, depth, batch)
 	case "valid", "valid-unreduced-hash", "wrong-hash":
 		m := genValidParams(t, mode, depth, batch)
 		if kind == "valid-unreduced-hash" {
